@@ -42,7 +42,7 @@ impl Property for C02 {
         ]
     }
     fn cases_per_shard(&self, tier: Tier) -> u32 {
-        tier.pick(120, 2500)
+        tier.pick(600, 6000)
     }
     fn decode(&self, t: &mut Tape, _tier: Tier) -> Case {
         let cfg = if t.chance(50) { GenCfg::horn_auto() } else { GenCfg::horn() };
@@ -133,7 +133,7 @@ impl Property for C02 {
                         } else if sets.st.used_env {
                             class.push_str(":uses-env");
                         }
-                        if sets.st.co_cycle {
+                        if sets.st.co_cycle && !class.contains(":env") {
                             class.push_str(":coinductive-cycle");
                         }
                         out.fail(class, format!("[{}] closed goal within limits answered `{}` but its logical value is {:?} (atoms {}, max type size {})\n{}goal: {}", name, rendered, v, sets.st.atoms, sets.st.max_size, low.text, lg.text));
